@@ -61,11 +61,11 @@ def valid_arg(rng, cls, name, ty):
     if ty == 'octet':
         return rng.choice([0, 1, 9, 127, 128, 255, rng.randint(0, 255)])
     if ty == 'short':
-        return rng.choice([0, 1, 255, 256, 32767, 32768, 65535, rng.randint(0, 65535)])
+        return rng.choice([0, 1, 255, 256, 32767, 32768, 65535, 206, 0x01CE, rng.randint(0, 65535)])
     if ty == 'long':
-        return rng.choice([0, 1, 65535, 65536, 2 ** 31 - 1, 2 ** 31, 2 ** 32 - 1, rng.randint(0, 2 ** 32 - 1)])
+        return rng.choice([0, 1, 65535, 65536, 2 ** 31 - 1, 2 ** 31, 2 ** 32 - 1, 0xCECECECE, 206, rng.randint(0, 2 ** 32 - 1)])
     if ty == 'longlong':
-        return rng.choice([0, 1, 2 ** 31, 2 ** 32, 2 ** 63 - 1, rng.randint(0, 2 ** 63 - 1), rng.randint(0, 2 ** 63 - 1)])
+        return rng.choice([0, 1, 2 ** 31, 2 ** 32, 2 ** 63 - 1, 206, rng.randint(0, 2 ** 55) * 256 + 206, rng.randint(0, 2 ** 63 - 1)])
     if ty == 'shortstr':
         return short_text(rng)
     if ty == 'longstr':
@@ -104,14 +104,18 @@ def rand_prop_value(rng, name, ty):
     if name == 'delivery_mode':
         return rng.choice([1, 2])
     if ty == 'octet':
-        return rng.choice([0, 1, 9, 255, rng.randint(0, 255)])
+        return rng.choice([0, 1, 9, 255, 206, rng.randint(0, 255)])
     if ty == 'shortstr':
         s = short_text(rng)
         return s or 'x'
     if ty == 'table':
-        return gen.rand_table(rng, 3, 3)
+        t = gen.rand_table(rng, 3, 3)
+        if rng.random() < 0.2:
+            t['\U0010ffff' * 3] = rng.choice([-50, bytearray(b'\x01\xce'), [-50], {'z': -50}])   # sorts last, ends in 0xCE
+        return t
     if ty == 'timestamp':
-        sec = rng.choice([0, 1, 2 ** 31 - 1, 2 ** 31, 2 ** 31 + 1, 2 ** 32 - 1, rng.randint(0, 2 ** 32 - 1)])
+        sec = rng.choice([0, 1, 2 ** 31 - 1, 2 ** 31, 2 ** 31 + 1, 2 ** 32 - 1, rng.randint(0, 2 ** 32 - 1),
+                          rng.randint(0, 2 ** 24 - 1) * 256 + 206])          # ... also ending in the frame-end octet
         dt = datetime.datetime(1970, 1, 1, tzinfo=datetime.timezone.utc) + datetime.timedelta(seconds=sec)
         return dt if rng.random() < 0.7 else dt.replace(tzinfo=None)
     raise ValueError(ty)
